@@ -1,2 +1,8 @@
 import EIO.Base.Bytes
 import EIO.Model.WT
+import EIO.Spec.WT
+import EIO.Lemmas.WTWriter
+import EIO.Lemmas.WTReader
+import EIO.Props.C13
+import EIO.Props.C14
+import EIO.Props.C15
